@@ -625,6 +625,20 @@ class List(list, base.Symbolic, pg_typing.CustomTyping):
     """Returns a repeated Lit of self."""
     return self.__mul__(n)
 
+  def __iadd__(self, other: Iterable[Any]) -> 'List':
+    """In-place concatenation with the semantics of `extend`."""
+    self.extend(other)
+    return self
+
+  def __imul__(self, n: int) -> 'List':
+    """In-place repetition with the semantics of `clear`/`extend`."""
+    if n <= 0:
+      self.clear()
+    else:
+      items = list(self.sym_values())
+      self.extend([v for _ in range(n - 1) for v in items])
+    return self
+
   def copy(self) -> 'List':
     """Shallow current list."""
     return List(super().copy(), value_spec=self._value_spec)
